@@ -69,6 +69,14 @@ def gen_tree(rnd, maxents=8, sizes=(0, 1, 2, 10, 10, 300), depth_bias=0.5):
             if not t.has(d + "/data.txt"): t.ents.append(("F", d + "/data.txt", b"data-next-to-the-link"))
             for ln in ["link.txt", "résumé.html", "ссылка"]:
                 if rnd.random() < 0.6 and not t.has(d + "/" + ln): t.ents.append(("L", d + "/" + ln, rnd.choice(["data.txt", "./data.txt"])))
+    if rnd.random() < 0.1 and not t.has("outer/root/rel") and not t.has("outer/root/latest") and not t.has("outer/notes.txt"):
+        # a link to a link: the second one lives in a sub-directory and climbs one level, staying inside the root; resolved from the first
+        # link's directory it would name the marked file of the same name one level above the root
+        t.ents.append(("D", "outer/root/rel")); t.dirs.append("outer/root/rel")
+        if not t.has("outer/root/notes.txt"): t.ents.append(("F", "outer/root/notes.txt", b"public-notes"))
+        t.ents.append(("F", "outer/notes.txt", SECRET + b"notes-above-the-root"))
+        t.ents.append(("L", "outer/root/rel/current", "../notes.txt"))
+        t.ents.append(("L", "outer/root/latest", rnd.choice(["rel/current", "./rel/current"])))
     if rnd.random() < 0.12 and (not t.has("outer/root/sub") or "outer/root/sub" in t.dirs):
         # a link in a subdirectory that climbs one level and stays inside the root: resolved from the wrong base (the root instead of the
         # link's own directory) it would name the marked file one level above the root
@@ -86,6 +94,8 @@ def gen_target(rnd, t):
     r = rnd.random()
     if t.has("outer/root/sub/up.txt") and rnd.random() < 0.5:
         return "/sub/up.txt"
+    if t.has("outer/root/latest") and rnd.random() < 0.5:
+        return rnd.choice(["/latest", "/latest", "/rel/current", "/latest?x=1"])
     dotted = [x for x in inroot if ".." in x]
     if dotted and rnd.random() < 0.4:
         # a harmless name with consecutive dots first, a real climb after it (a check that stops at the first occurrence)
